@@ -6,5 +6,6 @@ open Gribi.Facts
 theorem facts_guarded : guarded = true := by decide
 theorem facts_nonTrivial : nonTrivial = true := by decide
 theorem facts_txSerialised : txSerialised = true := by decide
+theorem facts_handlersAtomic : handlersAtomic = true := by decide
 
 end Gribi.FactsOk
